@@ -212,6 +212,44 @@ Proof.
   destruct Hin as [E|[]]. inversion E; subst. eauto.
 Qed.
 
+(* each read queries only addresses inside the requested range, on the addressed unit *)
+Definition ev_read (e : event) : option (kind * N * N) :=
+  match e with
+  | EvReadCoil u a => Some (KReadCoils, u, a) | EvReadDiscreteInput u a => Some (KReadDiscreteInputs, u, a)
+  | EvReadHoldingRegister u a => Some (KReadHoldingRegisters, u, a) | EvReadInputRegister u a => Some (KReadInputRegisters, u, a)
+  | _ => None
+  end.
+
+Lemma read_seq_addresses {A} (get : N -> A + N) mk : forall n a e, In e (snd (read_seq get mk a n)) ->
+  exists i, (i < n)%nat /\ e = mk (a + N.of_nat i).
+Proof.
+  induction n as [|n IH]; intros a e; cbn [read_seq]; [intros []|].
+  destruct (get a).
+  - specialize (IH (a + 1) e). destruct (read_seq get mk (a + 1) n) as [r lg]. cbn [snd] in *.
+    intros [<-|Hin].
+    + exists 0%nat. split; [lia|]. f_equal. lia.
+    + destruct (IH Hin) as (i & Hi & ->). exists (S i). split; [lia|]. f_equal. lia.
+  - cbn [snd]. intros [<-|[]]. exists 0%nat. split; [lia|]. f_equal. lia.
+Qed.
+
+Lemma write_call_not_read u r e : In e (write_call u r) -> ev_read e = None.
+Proof. destruct r; cbn [write_call In]; intros Hin; try contradiction; destruct Hin as [<-|[]]; reflexivity. Qed.
+
+Theorem reads_in_range a units fr e k u addr : In e (spec_calls H a units fr) -> ev_read e = Some (k, u, addr) ->
+  exists fc r s n, decode (f_pdu fr) = Valid fc r /\ kind_of r = k /\ f_dest fr = DUnit u /\ arg_of r = ARange s n /\ (s <= addr /\ addr < s + n).
+Proof.
+  unfold spec_calls. destruct (decode (f_pdu fr)) as [|fc|fc|fc r]; try (intros []).
+  destruct (fst (authorize a (dest_value (f_dest fr)) r)); [|intros []].
+  destruct (f_dest fr) as [u0|].
+  - destruct (lookup u0 units) as [st|]; [|intros []]. destruct (is_write r).
+    + intros Hin E. rewrite (write_call_not_read _ _ _ Hin) in E. discriminate.
+    + intros Hin E. destruct r; cbn [read_calls] in Hin; try contradiction;
+        apply read_seq_addresses in Hin as (i & Hi & ->); cbn [ev_read] in E; inversion E; subst;
+        do 4 eexists; (split; [reflexivity|]); cbn [kind_of arg_of]; repeat split; try reflexivity; lia.
+  - destruct (is_write r); [|intros []]. intros Hin E. apply in_flat_map in Hin as [[u0 st] [_ Hin]].
+    rewrite (write_call_not_read _ _ _ Hin) in E. discriminate.
+Qed.
+
 (* the i-th item is (start + i, i-th transmitted value) *)
 Lemma indexed_nth {A} (d : A) : forall vs s i, (i < length vs)%nat -> nth i (indexed s vs) (0, d) = (s + N.of_nat i, nth i vs d).
 Proof.
